@@ -34,10 +34,42 @@ type Layout struct {
 	RuleSlices []int  `json:"rule_slices"` // the rule's "slices" list, as namespace slice numbers
 	Locations  []int  `json:"locations"`   // copies per entry of the rule's slice list
 	DBs        string `json:"dbs"`         // absent | list | range | mixed
+	// Names: how the namespace names its slices, in configuration order.
+	// "" / lex: slice-0, slice-1, ...; rev: slice-(n-1) ... slice-0 (configuration order is
+	// the reverse of the lexical order); odd: s2, s10, s1, s9 (not in lexical order either)
+	Names string `json:"names,omitempty"`
+}
+
+var oddNames = []string{"s2", "s10", "s1", "s9"}
+
+// sliceName is the name of namespace slice i (position in the namespace's slice list).
+func (l Layout) sliceName(i int) string {
+	switch l.Names {
+	case "rev":
+		return rig.SliceName(l.NSlices - 1 - i)
+	case "odd":
+		return oddNames[i]
+	}
+	return rig.SliceName(i)
+}
+
+func (l Layout) namesKind() string {
+	if l.Names == "" {
+		return "lex"
+	}
+	return l.Names
 }
 
 func (l Layout) String() string {
-	return fmt.Sprintf("ns=%d slices=%v locations=%v dbs=%s", l.NSlices, l.RuleSlices, l.Locations, l.DBs)
+	s := fmt.Sprintf("ns=%d slices=%v locations=%v dbs=%s", l.NSlices, l.RuleSlices, l.Locations, l.DBs)
+	if l.Names != "" {
+		var ns []string
+		for i := 0; i < l.NSlices; i++ {
+			ns = append(ns, l.sliceName(i))
+		}
+		s += " names=" + strings.Join(ns, ",")
+	}
+	return s
 }
 
 func (l Layout) total() int {
@@ -106,7 +138,7 @@ func (l Layout) copies() []copyLoc {
 	p := 0
 	for i, s := range l.RuleSlices {
 		for j := 0; j < l.Locations[i]; j++ {
-			c := copyLoc{rig.SliceName(s), phys[p]}
+			c := copyLoc{l.sliceName(s), phys[p]}
 			p++
 			if !seen[c] {
 				seen[c] = true
@@ -136,7 +168,7 @@ func buildWith(l Layout, withT bool) (*rig.Env, error) {
 	cfg, _ := l.databases()
 	var slices []string
 	for _, s := range l.RuleSlices {
-		slices = append(slices, rig.SliceName(s))
+		slices = append(slices, l.sliceName(s))
 	}
 	mk := func(table string) *models.Shard {
 		return &models.Shard{DB: rig.DB, Table: table, Type: models.ShardGlobal, Slices: slices,
@@ -146,15 +178,19 @@ func buildWith(l Layout, withT bool) (*rig.Env, error) {
 	if withT {
 		t := &models.Shard{DB: rig.DB, Table: "t", Type: models.ShardRange, Key: "id", TableRowLimit: 100}
 		for i := 0; i < l.NSlices; i++ {
-			t.Slices = append(t.Slices, rig.SliceName(i))
+			t.Slices = append(t.Slices, l.sliceName(i))
 			t.Locations = append(t.Locations, 2)
 		}
 		rules = append(rules, t)
 	}
-	return rig.NewEnv(rig.Namespace(l.NSlices, rules, nil))
+	var names []string
+	for i := 0; i < l.NSlices; i++ {
+		names = append(names, l.sliceName(i))
+	}
+	return rig.NewEnv(rig.NamespaceNamed(names, rules, nil))
 }
 
-func layouts(maxSlices, maxLoc int, orders bool) []Layout {
+func layouts(maxSlices, maxLoc int, orders, names bool) []Layout {
 	var out []Layout
 	for ns := 1; ns <= maxSlices; ns++ {
 		var lists [][]int
@@ -184,6 +220,14 @@ func layouts(maxSlices, maxLoc int, orders bool) []Layout {
 					l := Layout{NSlices: ns, RuleSlices: append([]int(nil), rs...), Locations: loc, DBs: d}
 					if l.valid() {
 						out = append(out, l)
+						// slice names whose configuration order is not the lexical order
+						if names && ns >= 2 && l.sliceOrder() == "same" {
+							for _, nm := range []string{"rev", "odd"} {
+								l2 := l
+								l2.Names = nm
+								out = append(out, l2)
+							}
+						}
 					}
 				}
 			})
@@ -363,7 +407,7 @@ type outcome struct {
 func check(env *rig.Env, c *Case, out rig.Outcome) outcome {
 	l := c.Layout
 	feat := map[string]string{"kind": c.Stmt.Kind, "form": c.Stmt.Form, "qual": c.Stmt.Qual,
-		"dbs": l.DBs, "slice_order": l.sliceOrder(), "effect": "-",
+		"dbs": l.DBs, "slice_order": l.sliceOrder(), "slice_names": l.namesKind(), "effect": "-",
 		"same_db_copies": strconv.FormatBool(l.DBs == "absent" && maxOf(l.Locations) > 1)}
 	var res outcome
 	seen := map[string]bool{}
@@ -588,7 +632,7 @@ func main() {
 		r.Finish()
 	}
 	debug.SetGCPercent(400)
-	ls := layouts(r.Pick(3, 4), 3, true)
+	ls := layouts(r.Pick(3, 4), 3, true, true)
 	stmts := statements()
 	var mu sync.Mutex
 	done := 0
@@ -629,7 +673,7 @@ func main() {
 	printTallies()
 	r.Set("layouts", len(ls))
 	r.Set("statement_forms", len(stmts))
-	r.Set("bound", fmt.Sprintf("%d layouts (namespace slices 1-%d; rule slice list = all slices in order / reversed / without the first; 1-3 copies per listed slice; databases absent / explicit list / db[0-n] range / range+names) x %d statement forms (INSERT VALUES/SET/REPLACE/ON DUPLICATE, UPDATE, DELETE, SELECT, joins of two global tables, aliases, subquery, UNION; table and column names bare / table-qualified / db-qualified) x every answer of rand.Intn", len(ls), r.Pick(3, 4), len(stmts)))
+	r.Set("bound", fmt.Sprintf("%d layouts (namespace slices 1-%d; slice names slice-0.. in lexical order, in reverse-lexical configuration order, or s2,s10,s1,s9; rule slice list = all slices in order / reversed / without the first; 1-3 copies per listed slice; databases absent / explicit list / db[0-n] range / range+names) x %d statement forms (INSERT VALUES/SET/REPLACE/ON DUPLICATE, UPDATE, DELETE, SELECT, joins of two global tables, aliases, subquery, UNION; table and column names bare / table-qualified / db-qualified) x every answer of rand.Intn", len(ls), r.Pick(3, 4), len(stmts)))
 	r.Set("rule", "every (layout, statement form, random answer) is enumerated. distinct_nontrivial counts distinct (layout, form, target) where an accepted write was fanned out to at least two copies or an accepted read was steered to one copy by the enumerated rand.Intn answer, plus distinct (layout, prefix, subject) of the history family where the subject was accepted after the prefix and all its plans (one per random answer) were identical to its plans on a fresh router")
 	r.Assume("a rejected statement is not executed anywhere and is therefore not a violation (rejected forms are listed in NOTES.md)")
 	r.Assume("both global tables of a join have the same configuration (Gaea's documented requirement)")
